@@ -14,9 +14,20 @@ Inductive case :=
 | CZip (nl nr : nat) (dels : list del) (out : list (elem (Z * Z)))
 | CMerge (nl nr : nat) (dels : list del) (out : list (elem Z))
 | CFan (c : lcase)
-| CRoute (c : rcase).
+| CRoute (c : rcase)
+| CZipJob (n : Z) (pairs : list (Z * Z)).
+    (* whole job on 2 hosts: two n-element streams (0.., 1000..) replicated one-per-host, zipped *)
 
 Definition zz_eqb := pair_eqb Z.eqb Z.eqb.
+
+(** zip is never partitioned (its block has ONE replica whatever the inputs' replication): it
+    yields min(|a|,|b|) pairs using every element of the shorter side... here |a| = |b| = n:
+    n pairs, every left and every right element exactly once *)
+Definition zip_job_ok (n : Z) (pairs : list (Z * Z)) : bool :=
+  let k := Z.to_nat n in
+  Nat.eqb (length pairs) k &&
+  list_eqb Z.eqb (sort_by (fun z => z) (map fst pairs)) (map Z.of_nat (seq 0 k)) &&
+  list_eqb Z.eqb (sort_by (fun z => z) (map snd pairs)) (map (fun i => 1000 + Z.of_nat i) (seq 0 k)).
 
 Definition corr_ok (c : case) : bool :=
   match c with
@@ -26,6 +37,7 @@ Definition corr_ok (c : case) : bool :=
       list_eqb (elem_eqb Z.eqb) (strip_fb (run merge_machine (brun nl nr false false dels))) (strip_fb out)
   | CFan l => link_corr_ok l
   | CRoute c => route_corr_ok c
+  | CZipJob n pairs => zip_job_ok n pairs
   end.
 
 (** data delivered by one side, round by round, in delivery order (a side's round r ends
@@ -75,6 +87,7 @@ Definition prop_ok (c : case) : bool :=
         (seq 0 (Nat.max (length lr) (length rr)))
   | CFan l => C03.prop_ok_link l
   | CRoute c => route_prop_ok c
+  | CZipJob n pairs => zip_job_ok n pairs
   end.
 
 Definition known_class (c : case) : N := 0%N.
